@@ -749,7 +749,7 @@ pub fn purity(ctx: &GenCtx, rng: &mut Rng, run: u64) -> Plan {
             6 => plan.ops.push(Op::Lifetime { proc: k }),
             _ => {
                 let op_ref = *rng.pick(&observed);
-                let ctxs = [Context::Again, Context::OtherApi, Context::WithAux, Context::NoAux];
+                let ctxs = [Context::Again, Context::OtherApi, Context::WithAux, Context::NoAux, Context::FreshThread];
                 let c = if fresh_left > 0 && rng.chance(1, 6) {
                     fresh_left -= 1;
                     Context::FreshProcess
@@ -813,7 +813,7 @@ pub fn purity_proc(ctx: &GenCtx, rng: &mut Rng, _run: u64) -> Plan {
         plan.ops.push(Op::Sign { proc: k, msg: Msg { len: rng.below(40) as usize, cseed: rng.next_u64() }, api: *rng.pick(&[Api::Fn, Api::Obj]), cb: Cb::Accept, aux: None });
         if rng.chance(1, 4) {
             let o = *rng.pick(&observed);
-            plan.ops.push(Op::Recheck { op_ref: o, ctx: *rng.pick(&[Context::Again, Context::OtherApi, Context::WithAux, Context::NoAux]) });
+            plan.ops.push(Op::Recheck { op_ref: o, ctx: *rng.pick(&[Context::Again, Context::OtherApi, Context::WithAux, Context::NoAux, Context::FreshThread]) });
         }
         if rng.chance(1, 50) {
             observed.push(plan.ops.len());
